@@ -217,6 +217,7 @@ func C03(r *vf.Run) {
 		r.Sample(map[string]interface{}{"method": "MVN", "dest,src": "$7e,$00", "bytes": "54 7e 00"})
 	}
 
+	book := &shapeBook{byMode: map[string]map[string]bool{}}
 	if r.Phase("library-decode") {
 		// decode the emitted bytes with both library CPUs
 		chunks := len(methods)
@@ -281,6 +282,11 @@ func C03(r *vf.Run) {
 					var sb strings.Builder
 					rig.alt.DisassembleCurrentPC(&sb)
 					lineA := sb.String()
+					// full decode by the library's disassemblers: bytes, mnemonic and operand digits
+					pre := absPrim(&rig.prim)
+					det := func() interface{} { return map[string]interface{}{"method": m.Name, "arg": arg, "flags": flags, "code": vf.Hex(code)} }
+					checkTraceLine(r, "cpu65c816", lineP, pre, img, book, pre.PC, det)
+					checkTraceLine(r, "cpualt", lineA, pre, img, book, pre.PC, det)
 					for who, line := range map[string]string{"cpu65c816": lineP, "cpualt": lineA} {
 						nb, mn, ok := parseTraceBytes(line)
 						if !ok {
